@@ -40,7 +40,7 @@ func (m *Machine) unop(fr *frame, in *ssa.UnOp) value {
 		w := widthOf(in.X.Type())
 		if isFloat(in.X.Type()) {
 			if s.sym != nil {
-				return Poison{"float neg symbolic"}
+				return fromTerm(tBV("bvxor", s.sym, tConst(w, uint64(1)<<uint(w-1))))
 			}
 			if w == 32 {
 				return conc(32, uint64(f32bits(-math.Float32frombits(uint32(s.c)))))
@@ -272,9 +272,16 @@ func strEq(x, y *String) *Term {
 	if len(x.b) != len(y.b) {
 		return tBool(false)
 	}
-	r := tBool(true)
+	r := termTrue
 	for i := range x.b {
-		r = tAnd(r, tEq(x.b[i].term(8), y.b[i].term(8)))
+		a, b := x.b[i], y.b[i]
+		if a.sym == nil && b.sym == nil {
+			if a.c != b.c {
+				return termFalse
+			}
+			continue
+		}
+		r = tAnd(r, tEq(a.term(8), b.term(8)))
 		if r.isFalse() {
 			return r
 		}
@@ -519,7 +526,21 @@ func (m *Machine) floatOp(op token.Token, t types.Type, x, y Scalar) value {
 	case token.GEQ:
 		return fromTerm(tCmp("fp.geq", a, b))
 	}
-	return Poison{"symbolic float arithmetic"}
+	var fop string
+	switch op {
+	case token.ADD:
+		fop = "fp.add RNE"
+	case token.SUB:
+		fop = "fp.sub RNE"
+	case token.MUL:
+		fop = "fp.mul RNE"
+	case token.QUO:
+		fop = "fp.div RNE"
+	default:
+		return Poison{"symbolic float operation " + op.String()}
+	}
+	r := mkTerm(Term{op: fop, w: -w, args: []*Term{a, b}})
+	return fromTerm(mkTerm(Term{op: "fp.to_ieee_bv", w: w, args: []*Term{r}}))
 }
 
 func (m *Machine) convert(src, dst types.Type, x value) value {
@@ -644,7 +665,17 @@ func (m *Machine) convert(src, dst types.Type, x value) value {
 		return fromTerm(mkTerm(Term{op: "fp.to_ieee_bv", w: dw, args: []*Term{cv}}))
 	case !sf && df:
 		if sc.sym != nil {
-			return Poison{"int->float symbolic"}
+			// IEEE round-to-nearest-even conversion, as Go specifies
+			eb, sbits := 11, 53
+			if dw == 32 {
+				eb, sbits = 8, 24
+			}
+			op := fmt.Sprintf("(_ to_fp %d %d) RNE", eb, sbits)
+			if !isSigned(sb) {
+				op = fmt.Sprintf("(_ to_fp_unsigned %d %d) RNE", eb, sbits)
+			}
+			cv := mkTerm(Term{op: op, w: -dw, args: []*Term{sc.sym}})
+			return fromTerm(mkTerm(Term{op: "fp.to_ieee_bv", w: dw, args: []*Term{cv}}))
 		}
 		var f float64
 		if isSigned(sb) {
